@@ -15,16 +15,32 @@ package queue
 //@ func (*sortedFile).getPrev inline
 //@ func (*sortedFile).setNext inline
 //@ func (*sortedFile).setPrev inline
-//@ func (*sortedFile).unlink inline
-//@ func (*sortedFile).insertAfter inline
-//@ func (*sortedFile).insertBefore inline
 //@ func (*sortedGroup).getNext inline
 //@ func (*sortedGroup).getPrev inline
 //@ func (*sortedGroup).setNext inline
 //@ func (*sortedGroup).setPrev inline
+
+// ... and the same helpers are verified on their own, through the typed wrappers (which fix the dynamic
+// type of the links): list surgery joins the neighbours, clears the node, and links it where asked.
+// The hypotheses inside the clauses say that the list is linear around the nodes involved.
+//@ func (*sortedFile).unlink inline
+//@   on return assert neighbours-are-joined: old(f.prev) != f && old(f.next) != f && (old(f.prev) == nil || old(f.prev) != old(f.next)) ==> (old(f.prev) != nil ==> old(f.prev).next == old(f.next) && f.prev == nil) && (old(f.next) != nil ==> old(f.next).prev == old(f.prev) && f.next == nil) && (old(f.prev) == nil ==> f.prev == nil) && (old(f.next) == nil ==> f.next == nil)
+//@   modifies allof(sortedFile).next, allof(sortedFile).prev
+//@ func (*sortedFile).insertAfter inline
+//@   on return assert linked-behind: prev != nil && prev != f && old(prev.next) != f && old(prev.prev) != f && old(f.next) != prev && old(f.prev) != prev && old(f.prev) != f && old(f.next) != f && (old(f.prev) == nil || old(f.prev) != old(f.next)) ==> f.prev == prev && prev.next == f && f.next == old(prev.next) && (old(prev.next) != nil ==> old(prev.next).prev == f) && (old(f.prev) != nil ==> old(f.prev).next == old(f.next)) && (old(f.next) != nil && old(f.next) != old(prev.next) ==> old(f.next).prev == old(f.prev))
+//@   modifies allof(sortedFile).next, allof(sortedFile).prev
+//@ func (*sortedFile).insertBefore inline
+//@   on return assert linked-in-front: next != nil && next != f && old(next.prev) != f && old(next.next) != f && old(f.next) != next && old(f.prev) != next && old(f.prev) != f && old(f.next) != f && (old(f.prev) == nil || old(f.prev) != old(f.next)) ==> f.next == next && next.prev == f && f.prev == old(next.prev) && (old(next.prev) != nil ==> old(next.prev).next == f) && (old(f.next) != nil ==> old(f.next).prev == old(f.prev)) && (old(f.prev) != nil && old(f.prev) != old(next.prev) ==> old(f.prev).next == old(f.next))
+//@   modifies allof(sortedFile).next, allof(sortedFile).prev
 //@ func (*sortedGroup).addAfter inline
+//@   on return assert linked-behind: prev != nil && prev != g && old(prev.next) != g ==> g.prev == prev && prev.next == g && g.next == old(prev.next) && (old(prev.next) != nil ==> old(prev.next).prev == g)
+//@   modifies allof(sortedGroup).next, allof(sortedGroup).prev
 //@ func (*sortedGroup).addBefore inline
+//@   on return assert linked-in-front: next != nil && next != g && old(next.prev) != g ==> g.next == next && next.prev == g && g.prev == old(next.prev) && (old(next.prev) != nil ==> old(next.prev).next == g)
+//@   modifies allof(sortedGroup).next, allof(sortedGroup).prev
 //@ func (*sortedGroup).insertAfter inline
+//@   on return assert linked-behind: prev != nil && prev != g && old(prev.next) != g && old(prev.prev) != g && old(g.next) != prev && old(g.prev) != prev && old(g.prev) != g && old(g.next) != g && (old(g.prev) == nil || old(g.prev) != old(g.next)) ==> g.prev == prev && prev.next == g && g.next == old(prev.next) && (old(prev.next) != nil ==> old(prev.next).prev == g) && (old(g.prev) != nil ==> old(g.prev).next == old(g.next)) && (old(g.next) != nil && old(g.next) != old(prev.next) ==> old(g.next).prev == old(g.prev))
+//@   modifies allof(sortedGroup).next, allof(sortedGroup).prev
 
 // frames of the link interface (used where the dynamic type is not known on a path, and for loop frames)
 //@ interface link.getPrev trusted
